@@ -33,7 +33,7 @@ PROPS = {
                 dict(module="MC_Modes", cfg="MC_Modes_t", tier="thorough", timeout=1800, about="same for strings of 0..7 symbols, 8 keys"),
                 dict(module="MC_Modes", cfg="MC_Modes_neg", expect="violation", about="negative: counter increment without carry must be refuted")],
         stages=[dict(suite="sm4mode", nda="compare", trace="TraceSM4",
-                     required_classes={"both": ["sm4.mode/ctr.enc.carry", "sm4.mode/ctr.enc.wrap", "sm4.mode/cbc.enc.len0", "sm4.mode/cbc.dec.len0", "sm4.mode/cbc.enc.blocks",
+                     required_classes={"both": ["sm4.mode/ctr.enc.blocks+tail.large", "sm4.mode/ctr.dec.blocks+tail.large", "sm4.mode/cbc.dec.blocks.large", "sm4.mode/cfb.dec.blocks+tail.large", "sm4.mode/ofb.enc.blocks+tail.large", "sm4.mode/ctr.enc.carry", "sm4.mode/ctr.enc.wrap", "sm4.mode/cbc.enc.len0", "sm4.mode/cbc.dec.len0", "sm4.mode/cbc.enc.blocks",
                                                 "sm4.mode/cfb.dec.blocks+tail", "sm4.mode/ofb.enc.blocks+tail", "sm4.mode/cbc.enc.badiv"]})],
         assumptions=["BlockModes.tla transcribes the standard modes (CBC+PKCS#7, CFB-128, OFB, CTR-BE128); anchored by OpenSSL-made vectors"],
     ),
